@@ -235,6 +235,36 @@ def run(ctx: Ctx) -> None:
                     nj += 1
                     if got.get(m) != jwk[m]:
                         ctx.violation(f"jwk-int:RSA member {m} is not the minimal big-endian encoding [{kind}]", {"kind": kind, "member": m, "got": str(got.get(m))[:40]})
+    # members of exported EC / OKP / oct JWKs are the codec's image of the key's octets, whatever their length modulo 3
+    # (Ed448: 57 octets, no padding to cut; X448: 56; 32, 48, 66 for the others): keys that came in as PEM/DER or were generated
+    from cryptography.hazmat.primitives.serialization import load_pem_private_key
+    from joserfc.jwk import OctKey
+    for kind in ("EC:P-256", "EC:P-384", "EC:P-521", "EC:secp256k1", "OKP:Ed25519", "OKP:Ed448", "OKP:X25519", "OKP:X448"):
+        kty = kind.split(":")[0]
+        for i in (0, 1, 2):
+            if i < 2:
+                jwk = K.get(kind, i)
+                native = R.jwk_to_native(jwk, True)
+                key = JWKRegistry.import_key(native.private_bytes(S.Encoding.PEM if i else S.Encoding.DER, S.PrivateFormat.PKCS8, S.NoEncryption()), kty)
+            else:
+                key = JWKRegistry.generate_key(kty, kind.split(":")[1], auto_kid=False)
+                jwk = R.native_to_jwk(load_pem_private_key(key.as_pem(private=True), None), True)
+            for private in (True, False):
+                got = key.as_dict(private=private)
+                for m in ("x",) + (("y",) if kty == "EC" else ()) + (("d",) if private else ()):
+                    nj += 1
+                    if got.get(m) != jwk[m]:
+                        ctx.violation(f"jwk-octets:{kty} member {m} is not the unpadded base64url of the key's octets [{kind}, {'PEM/DER' if i < 2 else 'generated'}]",
+                                      {"kind": kind, "member": m, "got": str(got.get(m))[:40], "origin": i})
+    for ln in list(range(0, 70)) + [128, 255, 256, 1000]:
+        raw = bytes((7 * j + ln) % 256 for j in range(ln))
+        nj += 1
+        try:
+            k = OctKey.import_key(raw).as_dict()["k"]
+        except ValueError:
+            continue                          # an empty secret may be refused
+        if k != R.b64e(raw).decode():
+            ctx.violation(f"jwk-octets:oct member k is not the unpadded base64url of the secret [{ln} octets]", {"length": ln, "got": k[:40]})
     ctx.evaluations = n + njson + nj
     ctx.traces = n
     ctx.exhaustive = True
